@@ -148,7 +148,7 @@ func (fr *Frame) checkStore(addrV ssa.Value, addr *Term, T types.Type, v *Term, 
 	}
 	ng := IntLit(int64(prog.NG))
 	fr.obl("store.global", pos, ILt(ng, Acc("rid", addr)), "C20")
-	for _, r := range refParts(v, T) {
+	for _, r := range escapeParts(v, T) {
 		fr.obl("escape.global", pos, Or(Eq(r, Null), ILt(ng, Acc("rid", r))), "C20")
 	}
 }
@@ -238,8 +238,8 @@ func rootGlobal(v ssa.Value) (*ssa.Global, bool) {
 	for {
 		switch x := v.(type) {
 		case *ssa.Global:
-			_, ok := prog.Globals[x]
-			return x, ok
+			// package-level variables of other packages are part of the immutable global region too
+			return x, true
 		case *ssa.FieldAddr:
 			v = x.X
 		case *ssa.IndexAddr:
@@ -392,6 +392,8 @@ func (fr *Frame) binop(op token.Token, a, b *Term, ta, tb types.Type, pos token.
 		}
 	}
 	if a.Sort == SIface {
+		fr.ifaceStatic = ta
+		defer func() { fr.ifaceStatic = nil }()
 		switch op {
 		case token.EQL:
 			return fr.ifaceEq(a, b)
@@ -463,9 +465,16 @@ func (fr *Frame) ifaceEq(a, b *Term) *Term {
 	cs := []*Term{Eq(ta, tb)}
 	st := fr.curState
 	var isBoxed []*Term
+	var staticI *types.Interface
+	if fr.ifaceStatic != nil {
+		staticI, _ = fr.ifaceStatic.Underlying().(*types.Interface)
+	}
 	for _, it := range prog.IfaceImpls {
 		if _, isPtr := it.Underlying().(*types.Pointer); isPtr {
 			continue
+		}
+		if staticI != nil && !types.Implements(it, staticI) {
+			continue // a value of the operands' static interface type cannot have this dynamic type
 		}
 		tag := IntLit(int64(prog.tagOf(it)))
 		if isEmptyStruct(it) {
@@ -635,6 +644,14 @@ func (fr *Frame) slice(x *ssa.Slice, st *State) {
 		mx := get(x.Max, cp)
 		fr.obl("slice", x.Pos(), And(BVUle(lo, hi), BVUle(hi, mx), BVUle(mx, cp)), "C13")
 		fr.vals[x] = MkSlice(Acc("sbase", base), BVAdd(off, lo), BVSub(hi, lo), BVSub(mx, lo))
+		if eb, ok := u.Elem().Underlying().(*types.Basic); ok && eb.Kind() == types.Uint8 && (x.Low != nil || x.High != nil) {
+			// the byte string of a sub-slice is the corresponding sub-string of the slice's byte string
+			arr := st.arr(u.Elem(), Acc("sbase", base))
+			whole := UF("bs_of", SBS, arr, off, ln)
+			part := UF("bs_of", SBS, arr, BVAdd(off, lo), BVSub(hi, lo))
+			declFun("bs_sub", "(declare-fun bs_sub (BS (_ BitVec 64) (_ BitVec 64)) BS)")
+			fr.assumeG(Eq(part, App("bs_sub", SBS, whole, lo, hi)))
+		}
 	case *types.Basic: // string
 		ln := StrLen(base)
 		lo := get(x.Low, zero)
